@@ -94,6 +94,17 @@ theorem same_refresh_if (c : Bool) (v : Vec) : Same v (if c then refreshVec v el
   · exact Same.refl v
   · exact same_refresh v
 
+/-- building a definition reads the values or (BLOB) leaves the vector alone: no reader can tell -/
+theorem same_refreshDef (v : Vec) : Same v (refreshDef v) := by
+  rcases refreshDef_cases v with h | h <;> rw [h]
+  · exact Same.refl v
+  · exact same_refresh v
+
+theorem same_refreshDef_if (c : Bool) (v : Vec) : Same v (if c then refreshDef v else v) := by
+  cases c
+  · exact Same.refl v
+  · exact same_refreshDef v
+
 theorem bytesOk_readValue {k : Kind} {e : Dev.Elem} (hok : elemOk k e = true) (hb : bytesOk e.value = true) :
     bytesOk (readValue e) = true := by
   unfold readValue
@@ -128,6 +139,16 @@ theorem VG.refresh_if {v : Vec} (h : VG v) (c : Bool) : VG (if c then refreshVec
   cases c
   · exact h
   · exact h.refresh
+
+theorem VG.refreshDef {v : Vec} (h : VG v) : VG (Dev.refreshDef v) := by
+  rcases refreshDef_cases v with h' | h' <;> rw [h']
+  · exact h
+  · exact h.refresh
+
+theorem VG.refreshDef_if {v : Vec} (h : VG v) (c : Bool) : VG (if c then Dev.refreshDef v else v) := by
+  cases c
+  · exact h
+  · exact h.refreshDef
 
 theorem VG.enabled {v : Vec} (h : VG v) (b : Bool) : VG { v with enabled := b } :=
   ⟨h.ok, h.fmt, h.bytes, h.names⟩
